@@ -183,16 +183,97 @@ def provider_write(cl, lines, no_obf):
         SF.fs.ensure_path = old_ensure
 
 
+# ------------------------------------------------------------------ O1b: the allow-list filter stage under every set order
+ALLOW_LINES = ["k1 and k2 first", "only k1 here", "k2 then k1", "nothing", "k2 alone", "k1 k2 last"]
+
+
+def clean_allow(lines, budgets):
+    cl = K.make_cleaner(K.Cfg(obfuscate=False))
+    return cl.clean_content(list(lines), allowlist=dict(budgets))
+
+
+def make_allow_order():
+    def fn(en):
+        n = 3 + en.choice("nlines", len(ALLOW_LINES) - 2)
+        start = en.choice("start", len(ALLOW_LINES) - n + 1)
+        lines = ALLOW_LINES[start:start + n]
+        b1, b2 = 1 + en.choice("b1", 3), 1 + en.choice("b2", 3)
+        swap = en.flag("swap")           # the order the filters were registered in
+        budgets = [("k2", b2), ("k1", b1)] if swap else [("k1", b1), ("k2", b2)]
+        case = lambda mv: {"kind": "allow-order", "lines": lines, "budgets": budgets}  # noqa
+        en.note_sample(case)
+        ref = clean_allow(lines, budgets)
+        with oset.symbolic_order(mode="global"):
+            out = clean_allow(lines, budgets)
+        en.must_hold(list(out) == list(ref), "order-fixed", case, detail="the allow-list stage keeps %r under one set order and %r under another" % (list(ref), list(out)))
+    return fn
+
+
+# ------------------------------------------------------------------ O3: a fresh cleaner does not depend on cleaners created earlier in the process
+EARLIER = [None, ("db7.corp.acme.org", "db7.corp.acme.org and mx.corp.acme.org"), ("web.other.example", "web.other.example up"), ("shorthost", "shorthost and x.corp.acme.org")]
+LATER = [("buildhost", "db7.corp.acme.org talks to mx.corp.acme.org from 10.1.2.3"), ("myhost.example.org", "myhost.example.org and db1.example.org and a.corp.acme.org"),
+         ("n1.corp.acme.org", "n1.corp.acme.org n2.corp.acme.org web.other.example")]
+
+
+def fresh_output(fqdn, text):
+    cl = K.make_cleaner(K.Cfg(hostname=True, mac=False), fqdn=fqdn)
+    out = cl.clean_content([text])
+    return out, sorted((m["original"], m["obfuscated"]) for m in cl.obfuscate["hostname"].mapping())
+
+
+FRESH_REF = {}
+
+
+def fresh_references():
+    """what each fresh cleaner of LATER gives in a pristine uninstrumented interpreter (one child process per entry)"""
+    import json
+    if FRESH_REF:
+        return
+    here = os.path.dirname(os.path.dirname(os.path.abspath(__file__)))
+    code = ("import json, sys, os\nsys.path.insert(0, %r); sys.path.insert(1, %r)\nos.environ['SYMX_NATIVE'] = '1'\nfrom props import C10\n"
+            "fq, text = json.loads(sys.argv[1])\nprint(json.dumps(C10.fresh_output(fq, text)))\n") % (here, os.environ.get("VERIF_REPO", "/repo"))
+    for fq, text in LATER:
+        env = dict(os.environ)
+        env["SYMX_NATIVE"] = "1"
+        p = subprocess.run([sys.executable, "-c", code, json.dumps([fq, text])], capture_output=True, text=True, env=env, timeout=120)
+        if p.returncode != 0:
+            raise RuntimeError("reference interpreter failed: %s" % p.stderr[-400:])
+        out, mp = json.loads(p.stdout.strip().splitlines()[-1])
+        FRESH_REF[fq] = (out, sorted(tuple(x) for x in mp))
+
+
+def make_fresh():
+    def fn(en):
+        e = EARLIER[en.choice("earlier", len(EARLIER))]
+        fq, text = LATER[en.choice("later", len(LATER))]
+        case = lambda mv: {"kind": "fresh", "earlier": list(e) if e else None, "later": [fq, text]}  # noqa
+        en.note_sample(case)
+        ref = FRESH_REF[fq]
+        if e:
+            fresh_output(e[0], e[1])
+        got = fresh_output(fq, text)
+        got = (list(got[0]), sorted(tuple(x) for x in got[1]))
+        en.must_hold(got == (list(ref[0]), ref[1]), "order-fixed", case, detail="a fresh cleaner for %s gives %r in a pristine process; after another cleaner was used in this process it gives %r" % (fq, ref, got))
+    return fn
+
+
 def obligations(tier):
     thorough = tier == "thorough"
     enc = [CL.Cleaner.clean_content, CL.Cleaner.__init__, SF.ContentProvider._clean_content, SF.ContentProvider.write, SF.DatasourceProvider.__init__]
     stubs = K.STUBS + ["every set() in the cleaner modules is an OSet iterated in an engine-chosen total order (models PYTHONHASHSEED)",
                        "open() / fs.ensure_path of spec_factory record instead of touching the disk"]
+    fresh_references()
     return [
         Obligation("O1-order", make_order(), ["order-fixed"], desc="competing contents x obfuscator configurations x exemptions: every set iteration order gives the output and the parser sequence of one fixed order",
                    bounds={"contents": [c[0] for c in CONTENTS], "configurations": "hostname / mac obfuscation on or off, password / keyword exempted or not", "extra": "one unconstrained printable character appended",
                            "orders": "every total order of the obfuscator names (and of any other set the cleaners iterate)"},
                    stubs=stubs, outside=["clean_file file I/O", "IPv6"], encoded=enc[:2], budget_s=900 if thorough else 200, replay="order", check_sample=True),
+        Obligation("O1b-allow-list-order", make_allow_order(), ["order-fixed"],
+                   desc="the allow-list (filter) stage with two filters whose budgets run out, on lines that contain both: every set iteration order keeps the lines one fixed order keeps",
+                   bounds={"lines": "3-6 consecutive lines of %r" % ALLOW_LINES, "budgets": "1-3 each", "registration order": "both"}, stubs=stubs, encoded=[CL.Cleaner.clean_content], budget_s=120, replay="order", check_sample=True),
+        Obligation("O3-fresh-cleaner", make_fresh(), ["order-fixed"],
+                   desc="a fresh cleaner gives the same output and host mapping whether or not another cleaner (other system name, other domain) was created and used earlier in the same process (finite exploration)",
+                   bounds={"earlier cleaner": [x[0] if x else None for x in EARLIER], "fresh cleaner": [x[0] for x in LATER]}, stubs=stubs, encoded=[CL.Cleaner.__init__], budget_s=120, replay="order", check_sample=True),
         Obligation("O2-shape", make_shape(4 if thorough else 3), ["shape", "empty-not-stored"],
                    desc="lines that are kept / changed / dropped / empty / blank: output in input order, one output line per surviving input line, all-blank collapses to nothing and is not stored",
                    bounds={"lines": 4 if thorough else 3, "line kinds": LINE_KINDS, "configurations": "pattern redaction + password masking, or no parser applicable at all"},
@@ -238,6 +319,30 @@ def _native(case):
         if len(outs) > 1:
             return ["the same content and configuration give %d different (output, obfuscator sequence) results over PYTHONHASHSEED 0..11: %s" % (len(outs), outs)]
         return []
+    if case["kind"] == "allow-order":
+        # the filter keys are strings: their set order follows PYTHONHASHSEED
+        here = os.path.dirname(os.path.dirname(os.path.abspath(__file__)))
+        outs = {}
+        code = ("import json, sys, os\nsys.path.insert(0, %r); sys.path.insert(1, %r)\nos.environ['SYMX_NATIVE'] = '1'\nfrom props import C10\n"
+                "c = json.loads(sys.argv[1])\nprint(json.dumps(C10.clean_allow(c['lines'], [tuple(b) for b in c['budgets']])))\n") % (here, os.environ.get("VERIF_REPO", "/repo"))
+        for seed in range(12):
+            env = dict(os.environ)
+            env["PYTHONHASHSEED"] = str(seed)
+            env["SYMX_NATIVE"] = "1"
+            p = subprocess.run([sys.executable, "-c", code, json.dumps(case)], capture_output=True, text=True, env=env, timeout=120)
+            if p.returncode != 0:
+                return ["child interpreter failed: %s" % p.stderr[-500:]]
+            outs.setdefault(p.stdout.strip().splitlines()[-1], []).append(seed)
+        return ["the allow-list stage keeps %d different line sets over PYTHONHASHSEED 0..11: %s" % (len(outs), outs)] if len(outs) > 1 else []
+    if case["kind"] == "fresh":
+        fq, text = case["later"]
+        fresh_references()
+        ref = FRESH_REF[fq]
+        if case["earlier"]:
+            fresh_output(*case["earlier"])
+        got = fresh_output(fq, text)
+        got = (list(got[0]), sorted(tuple(x) for x in got[1]))
+        return [] if got == (list(ref[0]), ref[1]) else ["a fresh cleaner for %s gives %r in a pristine process; after another cleaner was used in this process it gives %r" % (fq, ref, got)]
     kinds, lines = case["kinds"], case["lines"]
     n = len(kinds)
     if case["no_parsers"]:
